@@ -53,4 +53,13 @@ class DownChunkingPlugin(Plugin):
                     f"Plugin {self.__class__.__name__} should yield (dict of) "
                     "strax.Chunk in compute method."
                 )
+            if isinstance(_result, dict):
+                wrong = [v.data_type for d, v in _result.items() if v.data_type != d]
+            else:
+                wrong = [v.data_type for v in values if v.data_type != self.provides[0]]
+            if wrong:
+                raise ValueError(
+                    f"{self.__class__.__name__} returned a Chunk with data_type "
+                    f"{wrong} instead of {self.provides}."
+                )
             yield self.superrun_transformation(_result, superrun, subruns)
